@@ -1,51 +1,144 @@
 /* ks_map.c - C20: drives libks/map.c in-process (included by ks_harness.c when
  * built with -DKS_WITH_MAP) and prints every observable result, the shape of
- * the hash table after every operation and its full bucket structure at the
- * end.
+ * the hash table after every operation, the allocator calls map.c made during
+ * the operation, its full bucket structure at the end, what MAP_FREE frees and
+ * which element blocks are still allocated afterwards.
  *
- *   map <kind> <nops> <op>...        kind s = string keys (MAP(const char, *, int64_t)),
- *                                         i = int keys (MAP(int, , int64_t), key given as 4 bytes, little endian)
+ *   map <kind> <fails> <nops> <op>...  kind s = string keys (MAP(const char, *, int64_t)),
+ *                                          i = int keys (MAP(int, , int64_t), key given as 4 bytes, little endian)
+ *                                      fails = "-" or a comma separated list of calloc indices (0 = the first calloc
+ *                                          after MAP_INIT) that return NULL: allocation-failure injection
  *       ops: ins:<hexkey>:<value>  find:<hexkey>  rm:<hexkey>  itstart  itnext  itdel
  *       results: P:<handle>:<value> | N | U | E:<handle>:<hexkey>:<value>
  *       each followed by @<num_buckets>/<num_items>/<noexpand>/<ineff_expands>/<nonideal_items>/<ideal_chain_maxlen>
- *       or @- when the map has no table (it is empty)
- *       last token: S:<bucket index>=<expand_mult>:<handle>,<handle>...;...   (non-trivial buckets only)
+ *       or @- when the map has no table (it is empty),
+ *       then #<allocator calls of the operation>: c:<blk> calloc, x:<blk> calloc that returned NULL, f:<blk> free;
+ *       <blk> = E<handle> element | T struct UT_hash_table | B<n> array of n buckets
+ *       then: S:<bucket index>=<expand_mult>:<handle>,<handle>...;...   (non-trivial buckets only)
+ *             F:<allocator calls of MAP_FREE>   L:<handles of element blocks never freed>
  *
- * A handle is the number of the insert that returned the pointer: pointers
- * returned by insert, find and iterate are translated through a table, so that
- * "find returns the address insert handed out" is visible as equal handles.
+ * A handle is the number of the element allocation (calloc in map_alloc_element)
+ * whose block the pointer points into: pointers returned by insert, find and
+ * iterate are translated through the block table, so that "find returns the
+ * address insert handed out" and "no operation moves an element" are visible
+ * as equal handles.  calloc and free are interposed inside map.c only.
  */
-#include "libks/map.c"
-
-struct handle {
-	const void	*ptr;
-	long		 id;
+#define KS_MAXBLK (1 << 16)
+struct ks_blk {
+	void	*ptr;
+	char	 kind;		/* E T B M */
+	long	 n;		/* handle / number of buckets */
+	int	 live;
 };
-
-static struct handle	*handles;
-static size_t		 nhandles, maxhandles;
+static struct ks_blk	 ks_blks[KS_MAXBLK];
+static size_t		 ks_nblks;
+static long		 ks_nelt;		/* element allocations so far */
+static long		 ks_ncalloc;		/* callocs attempted since MAP_INIT */
+static long		 ks_fail_at[256];
+static size_t		 ks_nfail;
+static int		 ks_logging;
+static char		 ks_log[1 << 16];
+static size_t		 ks_loglen;
 
 static void
-handle_add(const void *ptr, long id)
+ks_logf(const char *tag, char kind, long n)
 {
-	if (nhandles == maxhandles) {
-		maxhandles = maxhandles ? 2 * maxhandles : 256;
-		handles = realloc(handles, maxhandles * sizeof(*handles));
-	}
-	handles[nhandles].ptr = ptr;
-	handles[nhandles].id = id;
-	nhandles++;
+	if (!ks_logging || kind == 'M' || ks_loglen + 64 > sizeof(ks_log))
+		return;
+	ks_loglen += (size_t)snprintf(ks_log + ks_loglen, sizeof(ks_log) - ks_loglen, "%s%s:%c",
+	    ks_loglen ? "," : "", tag, kind);
+	if (kind != 'T')
+		ks_loglen += (size_t)snprintf(ks_log + ks_loglen, sizeof(ks_log) - ks_loglen, "%ld", n);
 }
 
-static long
-handle_of(const void *ptr)
+static void *
+ks_calloc(size_t nmemb, size_t size, const char *fn)
+{
+	char kind;
+	long n = 0;
+	size_t i;
+	void *p;
+
+	if (strcmp(fn, "map_alloc_element") == 0) {
+		kind = 'E';
+		n = ks_nelt;
+	} else if (strcmp(fn, "map_init") == 0) {
+		kind = 'M';
+	} else if (nmemb == 1) {
+		kind = 'T';
+	} else {
+		kind = 'B';
+		n = (long)nmemb;
+	}
+	if (ks_logging) {
+		long idx = ks_ncalloc++;
+		for (i = 0; i < ks_nfail; i++) {
+			if (ks_fail_at[i] == idx) {
+				ks_logf("x", kind, n);
+				return NULL;
+			}
+		}
+	}
+	p = calloc(nmemb, size);
+	if (p == NULL || ks_nblks == KS_MAXBLK)
+		abort();
+	ks_blks[ks_nblks].ptr = p;
+	ks_blks[ks_nblks].kind = kind;
+	ks_blks[ks_nblks].n = n;
+	ks_blks[ks_nblks].live = 1;
+	ks_nblks++;
+	if (kind == 'E')
+		ks_nelt++;
+	ks_logf("c", kind, n);
+	return p;
+}
+
+static void
+ks_free(void *p, const char *fn)
 {
 	size_t i;
 
-	for (i = nhandles; i > 0; i--)
-		if (handles[i - 1].ptr == ptr)
-			return handles[i - 1].id;
+	(void)fn;
+	if (p == NULL)
+		return;
+	for (i = ks_nblks; i > 0; i--) {
+		if (ks_blks[i - 1].ptr == p && ks_blks[i - 1].live) {
+			ks_blks[i - 1].live = 0;
+			ks_logf("f", ks_blks[i - 1].kind, ks_blks[i - 1].n);
+			free(p);
+			return;
+		}
+	}
+	/* not a block map.c allocated (or freed twice): make it visible */
+	if (ks_logging && ks_loglen + 16 < sizeof(ks_log))
+		ks_loglen += (size_t)snprintf(ks_log + ks_loglen, sizeof(ks_log) - ks_loglen, "%sf:?", ks_loglen ? "," : "");
+}
+
+#define calloc(n, s) ks_calloc((n), (s), __func__)
+#define free(p) ks_free((p), __func__)
+#include "libks/map.c"
+#undef calloc
+#undef free
+
+/* the handle of the element block a value pointer points into */
+static long
+handle_of(const void *val)
+{
+	const char *el = (const char *)val - sizeof(struct map_element);
+	size_t i;
+
+	for (i = ks_nblks; i > 0; i--)
+		if (ks_blks[i - 1].kind == 'E' && ks_blks[i - 1].ptr == (const void *)el)
+			return ks_blks[i - 1].live ? ks_blks[i - 1].n : -2;
 	return -1;
+}
+
+static void
+print_events(const char *pfx)
+{
+	ks_log[ks_loglen] = '\0';
+	printf("%s%s", pfx, ks_log);
+	ks_loglen = 0;
 }
 
 static void
@@ -116,10 +209,11 @@ key_int(const unsigned char *k, size_t len)
 #define MAP_SEQ(DECL, KEYOF, KEYHEX) do {					\
 	DECL m;									\
 	MAP_ITERATOR(m) it;							\
-	long counter = 0;							\
 	size_t i;								\
 	memset(&it, 0, sizeof(it));						\
+	ks_logging = 0;								\
 	if (MAP_INIT(m)) { printf("INITFAIL"); break; }				\
+	ks_logging = 1; ks_ncalloc = 0; ks_loglen = 0;				\
 	for (i = 0; i < nops; i++) {						\
 		const char *op = ops[i];					\
 		unsigned char *k = NULL;					\
@@ -133,7 +227,7 @@ key_int(const unsigned char *k, size_t len)
 			c2 = strrchr(op, ':');					\
 			val = MAP_INSERT_VALUE(m, KEYOF(k, klen), (int64_t)strtoll(c2 + 1, NULL, 10)); \
 			if (val == NULL) printf("N");				\
-			else { handle_add(val, counter); printf("P:%ld:%" PRId64, counter, *val); counter++; } \
+			else printf("P:%ld:%" PRId64, handle_of(val), *val);	\
 		} else if (is(op, "find")) {					\
 			kbase = arghex(op, &klen); kbase[klen] = '\0';		\
 			k = unaligned_copy(kbase, klen, i);			\
@@ -162,11 +256,15 @@ key_int(const unsigned char *k, size_t len)
 			printf("BAD");						\
 		}								\
 		print_shape(m);							\
+		print_events("#");						\
 		if (kbase != NULL) { free(kbase); k = NULL; }			\
 		free(k);							\
 	}									\
 	print_structure(m);							\
 	MAP_FREE(m);								\
+	print_events(" F:");							\
+	ks_logging = 0;								\
+	print_leaks();								\
 } while (0)
 
 #define KEYOF_STR(k, klen) ((const char *)(k))
@@ -174,13 +272,41 @@ key_int(const unsigned char *k, size_t len)
 #define KEYHEX_STR(key) puthex((const unsigned char *)(key), strlen(key))
 #define KEYHEX_INT(key) do { int _kv = (key); puthex((const unsigned char *)&_kv, sizeof(_kv)); } while (0)
 
+/* element blocks still allocated after MAP_FREE: leaked by map.c; released here */
+static void
+print_leaks(void)
+{
+	size_t i;
+	int first = 1;
+
+	printf(" L:");
+	for (i = 0; i < ks_nblks; i++) {
+		if (ks_blks[i].live && ks_blks[i].kind != 'M') {
+			printf("%s%c%ld", first ? "" : ",", ks_blks[i].kind, ks_blks[i].n);
+			first = 0;
+		}
+		if (ks_blks[i].live) {
+			free(ks_blks[i].ptr);
+			ks_blks[i].live = 0;
+		}
+	}
+}
+
 static void
 map_seq(char **toks, size_t ntoks)
 {
-	char **ops = toks + 2;
-	size_t nops = ntoks - 2;
+	char **ops = toks + 3;
+	size_t nops = ntoks - 3;
+	const char *f = toks[1];
 
-	nhandles = 0;
+	ks_nblks = 0;
+	ks_nelt = 0;
+	ks_nfail = 0;
+	while (*f != '\0' && *f != '-' && ks_nfail < sizeof(ks_fail_at) / sizeof(ks_fail_at[0])) {
+		char *end;
+		ks_fail_at[ks_nfail++] = strtol(f, &end, 10);
+		f = *end == ',' ? end + 1 : end;
+	}
 	if (toks[0][0] == 's')
 		MAP_SEQ(MAP(const char, *, int64_t), KEYOF_STR, KEYHEX_STR);
 	else
